@@ -119,7 +119,13 @@ Next == PickN1 \/ PickN2 \/ PickM \/ PickFlags \/ PickKind \/ PickCell
 Spec == Init /\ [][Next]_vars
 
 Complete == todo = "done" \/ SimDone
-\* kill maps are emitted compactly: [nA, nM, viol[1]]
-Emit == todo = "done" =>
-          PrintT(<<"HIST", IF b.mode = "map" THEN ToJson(<<b.nA[1], b.nM, b.viol[1]>>) ELSE ToJson(b)>>)
+\* exhaustive families are emitted compactly (ToJson of the full record dominates the run time):
+\*   map   [nA, nM, viol[1]]
+\*   wide  [nA, nM, viol[1], kind, exc[1], budget, minimize]
+\*   tuple [c, k, t, u]
+Compact == IF b.mode = "map" THEN ToJson(<<b.nA[1], b.nM, b.viol[1]>>)
+           ELSE IF b.mode = "wide"
+                THEN ToJson(<<b.nA[1], b.nM, b.viol[1], b.kind, b.exc[1], b.budget, b.minimize>>)
+                ELSE ToJson(b.q)
+Emit == todo = "done" => PrintT(<<"HIST", Compact>>)
 =============================================================================
